@@ -320,12 +320,17 @@ def check_kernel(out, facts):
     g = roles(facts).get('items')
     if g:
         t, v, ev = wire.infer_decoder_fn(facts, g)
-        inner = [x for x in sym.walk(t) if x[0] == 'star' and strip(x[1])[0] == 'adt']
+        from .c04 import _is_counter_star
+        inner = []
+        for x in sym.walk(t):
+            if x[0] == 'star':
+                bound, body = _is_counter_star(x, None)
+                if bound is not None and sym.vstr(bound).startswith('min('):
+                    inner.append((bound, body))
         ok = len(inner) == 1
         if ok:
-            rng = sym.vstr(inner[0][1])
-            body = [e for e in events(inner[0][2]) if e[0] in ('dec', 'MUTCALL', '?')]
-            ok = rng.startswith('Range::Range{0: 0:usize, 1: min(') and [e[0] for e in body] == ['dec', '?', 'MUTCALL'] and body[0][1] == 'T' and \
+            body = [e for e in events(inner[0][1]) if e[0] in ('dec', 'MUTCALL', '?')]
+            ok = [e[0] for e in body] == ['dec', '?', 'MUTCALL'] and body[0][1] == 'T' and \
                 body[2][1] == 'push' and sym.vstr(body[2][3][1]) == 'decoded#%s:T' % body[0][2]
         out.ob('K3', 'helper:items [%s]' % cfg, ok, 'item callback is not `for _ in 0..chunk { vec.push(T::decode(input)?) }`: ' + sym.tstr(t)[:300], g['loc'])
     else:
